@@ -91,6 +91,7 @@ M = [
  ("g-to-rhs-second-arg", ["C09:DM-to_rhs", "C16:ES-no-panic-path"], II, "            if let GenericArgument::Type(ty) = &args.args[0] {", "            if let GenericArgument::Type(ty) = &args.args[1] {"),
  ("g-param-last-segment", ["C03:DM-mentions-param"], SU, "                    if let Some(s) = i.segments.iter().next() {", "                    if let Some(s) = i.segments.iter().last() {"),
  ("g-visitor-starts-true", ["C03:DM-mentions-param"], SU, "            generics: self,\n            result: false,", "            generics: self,\n            result: true,"),
+ ("g-type-level-keeps-derive-ex", ["C04:ES-type-items-empty"], IT, "            derive_ex: false,\n            ..*self", "            derive_ex: true,\n            ..*self"),
  # benign variants: every listed property must stay silent
  ("benign-rename-local", [], IT, "let use_bounds = e.push_bounds_to(&mut wcb);\n    let mut ctor_args = Vec::new();\n    let mut clone_from_exprs = Vec::new();", "let use_bounds = e.push_bounds_to(&mut wcb);\n    let mut ctor_args = Vec::new();\n    let mut clone_from_exprs = Vec::new();\n    let _unused_marker = 0;"),
 ]
